@@ -453,6 +453,14 @@ def _pre(name):
         return P.RadianTransform(['x'])
     if name == 'RadianTransform:xy':
         return P.RadianTransform(['x', 'y'])
+    if name == 'RadianTransform:y':
+        return P.RadianTransform(['y'])
+    if name == 'RadianTransform:none':
+        return P.RadianTransform([])          # the constructor default: no axis is converted
+    if name == 'RadianTransform:none>FullSphere':
+        return P.RadianTransform([], next_transform=P.FullSphereLongitudeTransform())
+    if name == 'FullSphere>RadianTransform:y':
+        return P.FullSphereLongitudeTransform(next_transform=P.RadianTransform(['y']))
     if name == 'FullSphereLongitudeTransform':
         return P.FullSphereLongitudeTransform()
     if name == 'RadianTransform>FullSphere':
@@ -471,13 +479,16 @@ def _pre_roi(pre):
         return RectangularROI(0.01, 0.06, 0.5, 5.5)
     if pre == 'RadianTransform:xy':
         return RectangularROI(0.01, 0.06, 0.01, 0.08)
+    if pre in ('RadianTransform:y', 'FullSphere>RadianTransform:y'):
+        return RectangularROI(0.5, 4.5, 0.01, 0.08)
     if pre == 'ProjectionMplTransform':
         return RectangularROI(0.1, 0.6, 0.1, 0.7)
     return RectangularROI(0.5, 4.5, 0.5, 5.5)
 
 
-PRETRANSFORMS = ['RadianTransform', 'RadianTransform:xy', 'FullSphereLongitudeTransform',
-                 'RadianTransform>FullSphere', 'ProjectionMplTransform', 'function']
+PRETRANSFORMS = ['RadianTransform', 'RadianTransform:xy', 'RadianTransform:y', 'RadianTransform:none',
+                 'FullSphereLongitudeTransform', 'RadianTransform>FullSphere', 'RadianTransform:none>FullSphere',
+                 'FullSphere>RadianTransform:y', 'ProjectionMplTransform', 'function']
 
 
 def _mk_leaves():
